@@ -13,14 +13,14 @@ NOT_CLAIMED = {}
 CHECK_TEXT = {
     "C07": {
         "technique": "runtime oracle over generated inputs: independent JSON model (order/number-text/decoded-string equality) + reference shape transform; end to end: generated documents as SPINE payloads between two real completed connections, reader output compared with what was sent",
-        "level_text": "Held on every generated document of the run (200k quick / 5M thorough) except the two recorded input classes; "
+        "level_text": "Held on every generated document of the run (about 235k quick / 23M thorough incl. the end-to-end payloads; the evidence file has the exact numbers) except the two recorded input classes; "
                       "exploration of the input space by a seeded grammar generator and mutated real datagrams, not a proof.",
         "level_note": "Trusts the harness's own JSON parser/serialiser (common/jdoc) as reference; documents <= depth 6 / width 6; no duplicate member names, no lone surrogates.",
         "design_ref": "DESIGN.md 6 C07",
     },
     "C16": {
         "technique": "runtime round-trip oracle: announced TXT captured at a fake provider -> library parser -> second manager's entry; independent strict QR parser; histories of auto-accept changes / unannounce / announce / failing announce with a check after every announcement",
-        "level_text": "Held on every generated configuration of the run (50k quick / 2M thorough); exploration with a generator aimed at the 32-byte boundary, '=', ';', ':' and multi-byte runes.",
+        "level_text": "Held on every generated configuration of the run (50k quick / 20M thorough); exploration with a generator aimed at the 32-byte boundary, '=', ';', ':' and multi-byte runes.",
         "level_note": "MdnsManager.Start's provider selection is replaced by the VerifAttach hook; configurations with invalid UTF-8 are only checked for truncation and crashes (outside the quantifier).",
         "design_ref": "DESIGN.md 6 C16",
     },
@@ -68,7 +68,7 @@ CHECK_TEXT = {
     },
     "C12": {
         "technique": "recorded concurrent write histories on the real websocket connection + linearizability check (direct order/prefix oracle, porcupine cross-check), panic/hang detection",
-        "level_text": "No panic, no hang and prefix-linearizable delivery on every recorded history (3k quick / 120k thorough), with the closing event placed throughout the writers' progress.",
+        "level_text": "No panic, no hang and prefix-linearizable delivery on every recorded history (4.5k quick / about 700k thorough), with the closing event placed throughout the writers' progress.",
         "level_note": "net.Pipe transport (synchronous, queue of one); real-time scheduling decides which interleavings occur; hang verdict needs two matching goroutine dumps, otherwise inconclusive.",
         "design_ref": "DESIGN.md 6 C12, 3.5",
     },
@@ -80,7 +80,7 @@ CHECK_TEXT = {
     },
     "C17": {
         "technique": "runtime reference-model monitor: manager state compared with a sequential model after every resolver event; last-notification-equals-final-state check at bubble quiescence",
-        "level_text": "Model equality after every event and a current last report on all explored histories (5k quick / 200k thorough), including bursts with many reports in flight.",
+        "level_text": "Model equality after every event and a current last report on all explored histories (5k quick / about 800k thorough), including bursts with many reports in flight.",
         "level_note": "The provider/Start wiring is replaced by a hook; scheduling of the report goroutines is whatever the Go scheduler produces under GOMAXPROCS 1 and 4.",
         "design_ref": "DESIGN.md 6 C17",
     },
